@@ -1,6 +1,7 @@
 (* Props/C05.v — Every due task is eventually dispatched: no lost or stranded wake-up. *)
 From GK Require Import SysCheck.
 From GK.Proofs Require Import SysSmall.
+From GK.Proofs Require SysProofs RestProofs.
 
 (* a consumed fire is never simply lost: either a task is announced, or the scheduler records that the timer
    has to be restarted (the next Step stops and starts it again) *)
@@ -28,3 +29,44 @@ Theorem C05_never_idle_with_work : forall now0 ops,
   hops_ok now0 hs_init ops -> c07_ok (started_of ops) (hobs_of (hrun ops)) = true.
 Proof. exact hrun_c07. Qed.
 Print Assumptions C05_never_idle_with_work.
+
+(* ---- "The scheduler never ends up waiting on an idle timer while a due task exists" (hook-timer configuration),
+   as a theorem over ALL accepted traces, faults at the scheduler's own calls included (Proofs/RestProofs.v).
+   Hypotheses, each shown necessary by an accepted witness trace (C05_*_refuted below):
+   the run begins with StartTimer; no look-up failure inside the hook during a USER's mutation (observation O3 of
+   DESIGN.md); user operations carry the system's clock reading; the driver answers a DispatchErr with Retry (the
+   property's own premise). *)
+Theorem C05_at_rest_nothing_is_due : forall tr s,
+  SysProofs.srun sys_init tr = Some s -> SysProofs.srun_ok sys_init tr ->
+  RestProofs.timer_started_first tr = true -> RestProofs.no_user_hook_fault tr = true ->
+  RestProofs.trace_disciplined tr = true ->
+  sy_pc s = PSelect -> tm_pending (hs_timer (sy_h s)) = false ->
+  forall t, In t (SysProofs.repo_of s) -> t_state t = Scheduled -> inst (sy_now s) < inst (t_sched t).
+Proof. exact RestProofs.C05_rest_no_due. Qed.
+Print Assumptions C05_at_rest_nothing_is_due.
+
+(* the predicate the check evaluates at quiescence holds of every such trace that ends with the dump *)
+Theorem C05_predicate_holds_at_rest : forall tr dump now s,
+  let tr' := (tr ++ [LDump dump now true])%list in
+  SysProofs.srun sys_init tr' = Some s -> SysProofs.srun_ok sys_init tr' ->
+  RestProofs.timer_started_first tr' = true -> RestProofs.no_user_hook_fault tr' = true ->
+  RestProofs.trace_disciplined tr' = true ->
+  tm_pending (hs_timer (sy_h s)) = false ->
+  c05_ok tr' = true.
+Proof. exact RestProofs.C05_predicate_at_rest. Qed.
+Print Assumptions C05_predicate_holds_at_rest.
+
+(* each hypothesis is necessary: accepted traces ending at rest with a due task (rest_report = (mismatch, at rest,
+   due task exists, (H4, H1, H2, H3), c05_ok, ...)) *)
+Theorem C05_user_hook_fault_refuted :
+  RestProofs.rest_report RestProofs.cex_rest_hook_fault = (None, true, true, (true, false, true, true), false, None).
+Proof. exact RestProofs.C05_rest_refuted. Qed.
+Print Assumptions C05_user_hook_fault_refuted.
+Theorem C05_no_retry_refuted :
+  RestProofs.rest_report RestProofs.cex_rest_no_retry = (None, true, true, (true, true, true, false), false, None).
+Proof. exact RestProofs.C05_rest_no_retry_refuted. Qed.
+Print Assumptions C05_no_retry_refuted.
+Theorem C05_unstarted_refuted :
+  RestProofs.rest_report RestProofs.cex_rest_unstarted = (None, true, true, (false, true, true, true), false, None).
+Proof. exact RestProofs.C05_rest_unstarted_refuted. Qed.
+Print Assumptions C05_unstarted_refuted.
